@@ -224,3 +224,26 @@ func GenAbiTypes(text string) (out string, err error) {
 	}
 	return g.CollectedTypes(), nil
 }
+
+// TlbTypes: Generator.GetTlbTypes after generating the (non-message) declarations of a schema.
+func TlbTypes(text string) (names, defs []string, err error) {
+	defer func() {
+		if r := recover(); r != nil {
+			err = fmt.Errorf("generator panicked: %v", r)
+		}
+	}()
+	main, _ := SplitTlb(text)
+	parsed, e := tlbparser.Parse(main)
+	if e != nil {
+		return nil, nil, e
+	}
+	g := tlbparser.NewGenerator()
+	if _, e := g.GenerateGolangTypes(parsed.Declarations, "", false); e != nil {
+		return nil, nil, e
+	}
+	for _, t := range g.GetTlbTypes() {
+		names = append(names, t.Name)
+		defs = append(defs, t.Definition)
+	}
+	return
+}
